@@ -205,4 +205,5 @@ def run(prog, rep, tier, cfg):
         X.precedes('K7', 'selfdestruct:transfer-before-mark', SDF, [c.bb], mk, 'funds move before the tombstone is set')
     # ---- error discipline: no Result produced in these crates is silently discarded
     X.no_dropped_results('K14', 'results-not-discarded', ['fil_actor_evm'], 'no Result of a call is discarded')
+    X.tolerated_failures('K15', 'tolerated-failures', ['fil_actor_evm'], 'tolerated failures are the reviewed ones')
 
